@@ -79,6 +79,9 @@ const (
 	shCallW0     = shCount + 5   // 4-field CALL <wrapper i>, i = 0..len(c16WrapperSyms)-1
 	shFuncW0     = shCallW0 + 12 // TEXT <wrapper i> /src/asm.s
 	shListingEnd = shFuncW0 + 12
+	// function markers whose line is long (a generic instantiation with a long type argument list, a deep source path)
+	shFuncLong600  = shListingEnd     // TEXT main.h<n>[...600 bytes...](SB) /src/f.go
+	shFuncLong5000 = shListingEnd + 1 // ... 5000 bytes
 )
 
 // c16WrapperSyms: the twelve entry points, with the package path a real listing shows.
@@ -95,6 +98,7 @@ func init() {
 	for _, w := range c16WrapperSyms {
 		shapeNames = append(shapeNames, "TEXT "+w)
 	}
+	shapeNames = append(shapeNames, "TEXT (600-byte symbol)", "TEXT (5000-byte symbol)")
 }
 
 func rawInstr(i386 bool) string {
@@ -164,7 +168,18 @@ func renderLine(sh, n int, i386 bool) string {
 	if sh >= shFuncW0 && sh < shFuncW0+12 {
 		return "TEXT " + c16WrapperSyms[sh-shFuncW0] + " /src/asm.s"
 	}
+	if sh == shFuncLong600 || sh == shFuncLong5000 {
+		return "TEXT " + c16LongSym(sh, n) + " /src/f.go"
+	}
 	return ""
+}
+
+func c16LongSym(sh, n int) string {
+	k := 600
+	if sh == shFuncLong5000 {
+		k = 5000
+	}
+	return fmt.Sprintf("main.h%d[go.shape.struct { %s }](SB)", n, strings.Repeat("F int; ", k/7))
 }
 
 type modelSite struct {
@@ -212,6 +227,11 @@ func modelExtractOpt(shapes []int, i386 bool, names map[int]string, longReadable
 		}
 		if sh >= shFuncW0 && sh < shFuncW0+12 {
 			function = c16WrapperSyms[sh-shFuncW0] + " /src/asm.s"
+			window = window[:0]
+			continue
+		}
+		if sh == shFuncLong600 || sh == shFuncLong5000 {
+			function = c16LongSym(sh, n) + " /src/f.go"
 			window = window[:0]
 			continue
 		}
@@ -528,7 +548,7 @@ func checkC16(tier, replay string) int {
 	ctx.Cov["read_fault_runs"] = faults
 	ctx.Cov["max_lines"] = maxLines
 	ctx.Cov["long_function_sweep_max"] = c16LongFunctions
-	ctx.Cov["rule"] = fmt.Sprintf("all texts of <= %d lines over a %d-shape line alphabet (5 kinds of function marker incl. 'TEXT ', bare 'TEXT' and a generic symbol containing blanks, raw syscall instruction with and without location fields, the other architecture's raw instruction, number loads into AX/BP/stack, negative/unparsable/unknown numbers, the XOR idiom, calls of syscall.Syscall with and without location fields, neutral, empty and a 70000-byte line) for both parsers, with and without trailing newline, parsed by the real ExtractSyscalls under recover and compared with an independent site-model parser (number, name, caller, location), with the oracle tables, for monotonicity under appended functions and for an error whenever the text cannot be read to the end; plus the real `go tool objdump` output of a sample Go program built for amd64 and 386 (whole, and cut at function boundaries) compared with a text-level site model written without regular expressions, generated multi-function listings (all twelve wrapper entry points as callees and as containing functions; also with numbers carrying the x32 marker bit 0x40000000 on top of a valid number), a size sweep (load and site n neutral instructions apart for every n up to the bound in long_function_sweep_max, alone and followed by another function) the same three listings read through a named pipe written in pieces, and a read error injected (strace) at every read call of 3 listings; non-trivial = parses that report at least one syscall", maxLines, shCount)
+	ctx.Cov["rule"] = fmt.Sprintf("all texts of <= %d lines over a %d-shape line alphabet (5 kinds of function marker incl. 'TEXT ', bare 'TEXT' and a generic symbol containing blanks, raw syscall instruction with and without location fields, the other architecture's raw instruction, number loads into AX/BP/stack, negative/unparsable/unknown numbers, the XOR idiom, calls of syscall.Syscall with and without location fields, neutral, empty and a 70000-byte line) for both parsers, with and without trailing newline, parsed by the real ExtractSyscalls under recover and compared with an independent site-model parser (number, name, caller, location), with the oracle tables, for monotonicity under appended functions and for an error whenever the text cannot be read to the end; plus the real `go tool objdump` output of a sample Go program built for amd64 and 386 (whole, and cut at function boundaries) compared with a text-level site model written without regular expressions, generated multi-function listings (all twelve wrapper entry points as callees and as containing functions; function markers of 600 and 5000 bytes; also with numbers carrying the x32 marker bit 0x40000000 on top of a valid number), a size sweep (load and site n neutral instructions apart for every n up to the bound in long_function_sweep_max, alone and followed by another function) the same three listings read through a named pipe written in pieces, and a read error injected (strace) at every read call of 3 listings; non-trivial = parses that report at least one syscall", maxLines, shCount)
 	ctx.Assumptions = []string{"site model: the number is taken from the nearest preceding number-loading instruction of the same function after the previous detected site; raw sites inside syscall.Syscall wrappers are not sites", "strace fault injection (-e inject=read:error=EIO:when=N) realises read failures"}
 	ctx.Sample(map[string]any{"text": []string{"TEXT main.f0(SB) /src/f.go", "  f.go:1\t0x401001\t0f05\tMOVQ $0x3b, AX", "TEXT main.f2(SB) /src/f.go", "  f.go:3\t0x401003\t0f05\tSYSCALL"}, "expected": "no syscall: the load belongs to another function"})
 	return ctx.Finish()
@@ -580,6 +600,12 @@ func c16Listings(ctx *evid.Ctx, check checkTextAdapter, tier string) {
 		for _, l := range loads {
 			jobs = append(jobs, []int{shFunc, l, shCallW0 + w}, []int{shFunc, l, shNeutral, shCallW0 + w, shLoadAX, shRaw}, []int{shFunc, shLoadAX, shRaw, l, shCallW0 + w, shFunc, shLoadStack, shCall})
 			jobs = append(jobs, []int{shFuncW0 + w, l, shRaw, shFunc, shLoadAX, shRaw}, []int{shFunc, shLoadBP, shRaw, shFuncW0 + w, l, shRaw, shLoadStack, shCallW0 + (w+1)%12})
+		}
+	}
+	// long function markers between two functions with sites: the marker still ends the first function
+	for _, lf := range []int{shFuncLong600, shFuncLong5000} {
+		for _, l := range loads {
+			jobs = append(jobs, []int{shFunc, l, lf, shRaw, shLoadStack, shCall}, []int{shFunc, l, shRaw, lf, l, shNeutral, shRaw, shFunc, shLoadAX, shRaw}, []int{lf, l, shRaw})
 		}
 	}
 	// size sweep: a function whose number load and site are n neutral instructions apart, for every n up to the bound (the text
